@@ -52,6 +52,10 @@ def realisations(inp, sched, errnos):
         return ["kill"]
     if f["f"] == "short":
         return ["short", "fsize"]
+    if f["f"] == "tmp":
+        return ["inject:EINTR", "inject:EAGAIN", "inject:ESTALE"]
+    if f["f"] == "perr":
+        return ["pinject:" + errnos.get(inp["steps"][f["at"] - 1]["op"], ["EIO"])[0]]
     st = inp["steps"][f["at"] - 1]
     hows = ["inject:" + e for e in errnos.get(st["op"], ["EIO"])]
     if inp.get("env", "normal") == "normal":
@@ -167,7 +171,7 @@ def run(ctx):
                          env=seed_env, out_name="multi.jsonl")
         for rec in ctx.read_results(mp):
             if "files" in rec:
-                multi_files = rec["files"]
+                multi_files += rec["files"]
             else:
                 if rec["file"]["b"] == "other":
                     rec["file"]["n"] = 0
